@@ -101,6 +101,12 @@ func Load(repo, verif string, prop string) (*Loaded, error) {
 			return nil, err
 		}
 	}
+	stubFiles, _ := filepath.Glob(filepath.Join(verif, "stubs", "*.go"))
+	for _, m := range stubFiles {
+		if err := addOverlay(filepath.Join(repo, "zzverifstubs", filepath.Base(m)), m); err != nil {
+			return nil, err
+		}
+	}
 	hroot := filepath.Join(verif, "harness", prop)
 	pkgDirs := map[string]bool{}
 	var hfiles []string
@@ -128,6 +134,9 @@ func Load(repo, verif string, prop string) (*Loaded, error) {
 	patterns = append(patterns, "./zzverif")
 	if len(models) > 0 {
 		patterns = append(patterns, "./zzverifmodels")
+	}
+	if len(stubFiles) > 0 {
+		patterns = append(patterns, "./zzverifstubs")
 	}
 	fset := token.NewFileSet()
 	cfg := &packages.Config{
